@@ -803,8 +803,20 @@ class NMRTensor(NDArrayOperatorsMixin):
             return average_tensor_list(tensor_list, weights)
 
         # Convert to numpy object array for easier handling of dimensions
-        tensor_array = np.array(tensor_list, dtype=object)
-        array_shape = tensor_array.shape[:-2]  # Exclude the last two dimensions (3x3)
+        # (np.array(tensor_list, dtype=object) would expand every tensor into its
+        # 3x3 numbers through __array__, so the array is filled by hand)
+        array_shape = []
+        level = tensor_list
+        while isinstance(level, (list, tuple)):
+            array_shape.append(len(level))
+            level = level[0]
+        array_shape = tuple(array_shape)
+        tensor_array = np.empty(array_shape, dtype=object)
+        for idx in np.ndindex(array_shape):
+            item = tensor_list
+            for i in idx:
+                item = item[i]
+            tensor_array[idx] = item
 
         # For axis=None, flatten the array and average all tensors
         if axis is None:
@@ -832,7 +844,7 @@ class NMRTensor(NDArrayOperatorsMixin):
         # Helper function to apply averaging along the specified axis
         def average_along_axis():
             # For each slice perpendicular to the specified axis
-            for idx in np.ndindex(result_shape):
+            for idx in np.ndindex(*result_shape):
                 idx_list = list(idx)
                 if axis > 0:
                     idx_list.insert(axis, slice(None))
